@@ -13,6 +13,17 @@ Search: the property stated on the implementation only (no model): whenever lasp
 it, `stream.closed == closefd`; LasData.write leaves it open; right after a successful open for reading the caller's stream
 stands offset_to_point_data bytes after where it stood and the first read_points returns the file's first records; a stream left open stays open and
 usable after the handle is dropped and the garbage collector has run.
+Sources by CAPABILITY (both passes): next to BytesIO, a buffered and a raw file and the three doubles (seekable, not seekable, read()
+only), the same three doubles WITHOUT a `closed` attribute (a minimal file-like object; whether laspy closed it is read off its close
+counter), through the whole matrix. Handles that are DROPPED (both passes; event G, model EDrop): after any body - nothing, points
+read, a seek, the point source created, points written / appended, a failed read - the reader / writer / appender is neither closed
+nor left through a with statement: the caller forgets it, gc.collect() runs; for every mode, closefd, source kind, also on LAZ-flagged
+files, after stream faults, in random histories (the stream is then used again). Oracle: a stream handed over with closefd=False is
+not closed by that either (closefd=True: the property does not say when; the model - no finalizer - says the stream is untouched).
+CLOSED TWICE (both passes; events C2 / Wc, model EReclose / EUseClosed): after every way of ending a session the same object is closed
+again (close() or `with obj: pass`), once or twice, and a closed writer / appender is given points, in every mode, closefd and source
+kind, in random histories and under stream faults: the stream is still closed iff closefd (an appender's second close does nothing,
+its flag LasAppender.closed is set; points given to it are refused).
 Stream faults (both passes): laspy is handed a proxy of the caller's stream on which the k-th call of
 read/readinto/seek/tell/write/flush/truncate since laspy got it raises (once, or from then on), for EVERY k of the session - while
 opening, under read_points / read / seek / chunk_iterator / read_evlrs / write_points / append_points / write_evlrs, inside
@@ -47,7 +58,12 @@ ASSUMPTIONS = [
     "model is told the class of the exception building it raises: f_laz); a LAZ point reader that CAN be built - its own reads, "
     "seeks and close - is outside the model and the generator. An empty LAZ-flagged file with EVLRs is generated on every source "
     "(read() raises on a source that cannot seek: the open finding of C14/C17; here only the closing is judged). One laspy handle per "
-    "stream at a time; no double close",
+    "stream at a time. A SECOND close (close() / a with-exit once more on the object that was just closed; events C2) and points given "
+    "to a closed writer / appender (Wc) are run for every mode: the oracle judges the stream (still closed iff closefd), the model "
+    "(EReclose / EUseClosed over gen_close_*_again, gen_use_after_close) is compared on the stream and - reader, appender - on the "
+    "result; what the second close of a WRITER returns (it rewrites its header into the stream once more) is not modelled. A handle that is dropped without close() and collected (event G): the oracle judges "
+    "closefd=False (the stream must stay open); with closefd=True the property does not say whether / when the stream is closed, the "
+    "model (no class has a finalizer: gen_only_close_closes) says it is left as it is and the correspondence compares that",
     "the stream's close(), closed and seekable() do not fail; its read/readinto/seek/tell/write/flush/truncate may (injected faults: "
     "the k-th such call of the session raises, once or from then on). The non-seekable double refuses seek/tell; the read-only source "
     "has read/close/closed and no other attribute: asking it `x.seekable()` is an AttributeError, which the model predicts from the "
@@ -72,7 +88,11 @@ SCRATCH = f"/var/tmp/c18_{os.getpid()}"
 OUTCOMES = ["ok", "empty", "badsig", "trunc", "badvlr", "incompat"]
 LATE = ["cutrec", "badevlr"]      # the header is fine, reading fails later (model outcome: ok, with the facts of the content)
 PRE = bytes((i * 37 + 11) % 251 for i in range(4096))      # what a stream holds before the LAS content, when something does
-KINDS = ["bytesio", "file", "rawfile", "double", "double_ns", "double_ro"]
+# sources by CAPABILITY. The last three are the doubles again WITHOUT a `closed` attribute (a minimal file-like object: read [write
+# seek tell seekable flush] and close, nothing else; asking it for `closed` is an AttributeError): whether laspy closed them is read
+# off their close counter
+KINDS = ["bytesio", "file", "rawfile", "double", "double_ns", "double_ro", "nc_double", "nc_double_ns", "nc_ro"]
+NC_KINDS = ("nc_double", "nc_double_ns", "nc_ro")
 FILES = [("1.2", 3, 0, 0), ("1.2", 1, 3, 0), ("1.4", 6, 0, 1), ("1.4", 7, 3, 2), ("1.4", 6, 2, 0), ("1.1", 0, 1, 0)]
 
 
@@ -86,12 +106,14 @@ class StreamDouble:
     def __init__(self, data=b"", seekable=True):
         self._b = io.BytesIO(data)
         self._seekable = seekable
-        self.closed = False
+        self._shut = False
         self.close_calls = 0
         self.count = 0
 
+    closed = property(lambda self: self._shut)
+
     def _chk(self):
-        if self.closed:
+        if self._shut:
             raise ValueError("I/O operation on closed file.")
 
     def read(self, n=-1):
@@ -129,7 +151,7 @@ class StreamDouble:
 
     def close(self):
         self.close_calls += 1
-        self.closed = True
+        self._shut = True
 
     def position(self):
         return self._b.tell()
@@ -138,26 +160,50 @@ class StreamDouble:
         return self._b.getvalue()
 
 
+def _no_closed_attribute(self):
+    raise AttributeError(f"'{type(self).__name__}' object has no attribute 'closed'")
+
+
+class StreamDoubleNC(StreamDouble):
+    """the same stream double without a `closed` attribute (hasattr(x, "closed") is False)"""
+    closed = property(_no_closed_attribute)
+
+
 class ReadOnlySource:
     """A source that offers only read(): no seekable, seek, tell, readinto, write, flush (asking for any of them is an
     AttributeError). close/closed are what the property is about; counts the close calls."""
 
     def __init__(self, data=b""):
         self._b = io.BytesIO(data)
-        self.closed = False
+        self._shut = False
         self.close_calls = 0
 
+    closed = property(lambda self: self._shut)
+
     def read(self, n=-1):
-        if self.closed:
+        if self._shut:
             raise ValueError("I/O operation on closed file.")
         return self._b.read(n)
 
     def close(self):
         self.close_calls += 1
-        self.closed = True
+        self._shut = True
 
     def position(self):
         return self._b.tell()
+
+
+class ReadOnlySourceNC(ReadOnlySource):
+    """read() and close(), nothing else: not even a `closed` attribute"""
+    closed = property(_no_closed_attribute)
+
+
+def is_closed(stream):
+    """whether the caller's stream has been closed: for the doubles by their close counter (they may have no `closed`
+    attribute), for io objects by `closed`"""
+    if hasattr(stream, "close_calls"):
+        return stream.close_calls > 0
+    return stream.closed
 
 
 # ---------------------------------------------------------------------------------
@@ -509,6 +555,12 @@ def make_stream(kind, data, writable):
         return StreamDouble(data, False)
     if kind == "double_ro":
         return ReadOnlySource(data)
+    if kind == "nc_double":
+        return StreamDoubleNC(data, True)
+    if kind == "nc_double_ns":
+        return StreamDoubleNC(data, False)
+    if kind == "nc_ro":
+        return ReadOnlySourceNC(data)
     os.makedirs(SCRATCH, exist_ok=True)
     _SEQ[0] += 1
     p = os.path.join(SCRATCH, f"f{_SEQ[0]}.las")
@@ -519,12 +571,12 @@ def make_stream(kind, data, writable):
 
 
 def seekable_kind(kind):
-    return kind not in ("double_ns", "double_ro")
+    return kind not in ("double_ns", "double_ro", "nc_double_ns", "nc_ro")
 
 
 def cap_tok(kind):
     """what the model is told about the stream: it answers seekable() with True | with False | it has no seekable attribute"""
-    return "T" if seekable_kind(kind) else "A" if kind == "double_ro" else "F"
+    return "T" if seekable_kind(kind) else "A" if kind in ("double_ro", "nc_ro") else "F"
 
 
 def set_content(stream, data, pos=0):
@@ -538,7 +590,7 @@ def set_content(stream, data, pos=0):
 
 
 def pos_of(stream, kind):
-    if stream.closed:
+    if is_closed(stream):
         return None
     if not seekable_kind(kind):
         return stream.position()
@@ -556,6 +608,10 @@ def pos_of(stream, kind):
 #  ["Wbad"]              the with-body calls write_points/append_points with another point format (LaspyException from laspy)
 #  ["Sbad"]              the with-body seeks past the end (IndexError from laspy)
 #  ["X"] ["C"]           normal exit of the with statement / explicit close()
+#  ["C2", "c"|"x"]       the object that was just closed (by X, C, B, ..) is closed AGAIN: close() | `with obj: pass`
+#  ["Wc"]                write_points / append_points on the writer / appender that was just closed
+#  ["G"]                 the handle is DROPPED: no close(), no with statement - the caller forgets the reader / writer / appender (and
+#                        whatever it got from it), the garbage collector runs; the stream is the caller's and may be used again
 #  ["D", outcome, variant]            LasData.write(stream)
 #  ["L", closefd, outcome, variant]   laspy.read(stream, closefd=)
 #  ["N"]                 the caller refills the (seekable, writable) stream for the next session and rewinds it
@@ -573,7 +629,7 @@ def ev_tok(ev, fi, pre=0):
         return f"P{ev[1]}"
     if k == "S":
         return f"S{ev[1]}:{ev[2]}"
-    if k in ("A", "Q", "W", "X", "C"):
+    if k in ("A", "Q", "W", "X", "C", "G"):
         return k
     if k == "We":
         return "W"
@@ -613,12 +669,24 @@ def model_tokens(sc, steps, fis):
         came_out = faulted and st["res"] in ("xl", "xo", "xb")
         c = st["res"][1] if came_out else None
         if st["res"] == "ig":
-            out.append([ev_tok(ev, fi, pre)] if k not in ("I", "E", "Bf") else ["X" if k == "Bf" else "Q"])
+            out.append([ev_tok(ev, fi, pre)] if k not in ("I", "E", "Bf", "C2", "Wc") else ["X" if k == "Bf" else "Q"])
             continue
         if k == "E":
             return None
         if k in BODY_OPS and dirty:
             return None
+        if k in ("C2", "Wc"):
+            if faulted:
+                return None         # a stream fault under a second close / a write after close: judged by the oracle only
+            m_, cf_ = st["prev"]
+            if k == "Wc":
+                out.append([f"U{m_}"])
+            else:
+                ps = {"n": "n", "r": "rT", "e": "eT"}.get(st.get("prev_ps"))
+                if ps is None:
+                    return None
+                out.append([f"R{m_}{tf(cf_)}:{ps}"])
+            continue
         if k == "N":
             dirty = False
         if faulted:
@@ -680,9 +748,9 @@ def ps_tok(handle):
 
 PHASE = {"O": "open", "P": "read_points", "A": "read", "S": "seek", "Q": "point_source", "I": "chunk_iterator", "E": "read_evlrs",
          "W": "write_points", "We": "write_evlrs", "X": "close", "C": "close", "B": "close", "Bf": "close", "Wbad": "close",
-         "Sbad": "close", "D": "LasData.write", "L": "laspy.read"}
+         "Sbad": "close", "D": "LasData.write", "L": "laspy.read", "G": "dropping the handle", "C2": "a second close", "Wc": "writing after close"}
 BODY_OPS = ("P", "S", "A", "Q", "I", "E", "W", "We")
-NEED_HANDLE = BODY_OPS + ("X", "B", "Bf", "Wbad", "Sbad", "C")
+NEED_HANDLE = BODY_OPS + ("X", "B", "Bf", "Wbad", "Sbad", "C", "G")
 
 
 def run_impl(scen):
@@ -717,17 +785,25 @@ def run_impl(scen):
     pos_valid = True
     fis = []
     last_ex = None       # what the last body operation of the session raised
+    rec = las = None
+    prev = prev_sess = None     # the object that was closed last (the caller still holds it) and its session
     fault_phase = None   # the public operation under which the latest injected fault was raised
     for i, ev in enumerate(events):
         k = ev[0]
         ex = None
         info = {}
         fi = ZERO_FI
-        was_open = not stream.closed
+        was_open = not is_closed(stream)
+        if k in ("O", "N", "D", "L", "G"):
+            prev = prev_sess = None
+        if k in ("C2", "Wc") and (prev is None or (k == "Wc" and prev_sess["mode"] == "r")):
+            fis.append(fi)
+            steps.append({"res": "ig", "exc": None, "closed": is_closed(stream), "pos": None, "ps": None, "handle": False})
+            continue
         if handle is None and k in NEED_HANDLE:
             # the open that should have given a handle did not: nothing to operate on (the open itself is what disagrees)
             fis.append(fi)
-            steps.append({"res": "ig", "exc": None, "closed": stream.closed, "pos": None, "ps": None, "handle": False})
+            steps.append({"res": "ig", "exc": None, "closed": is_closed(stream), "pos": None, "ps": None, "handle": False})
             continue
         raised0 = proxy._raised if proxy is not None else 0
         ngone0 = len(gone)
@@ -768,7 +844,7 @@ def run_impl(scen):
                 handle = None
                 pos_valid = False
                 gone.append({"how": "failed-open", "mode": mode, "outcome": outcome, "closefd": cf, "was_open": was_open,
-                             "closed": stream.closed, "at": i, "exc": type(e).__name__,
+                             "closed": is_closed(stream), "at": i, "exc": type(e).__name__,
                              "precondition": mode == "w" and was_open and not seekable_kind(kind)})
         elif k in BODY_OPS:
             last_ex = None
@@ -825,19 +901,57 @@ def run_impl(scen):
                 ex = e
             plain = k == "X" or (k == "Bf" and not reraised)
             gone.append({"how": "exit" if plain else "body-raised", "mode": sess["mode"], "closefd": sess["closefd"],
-                         "was_open": sess["open0"], "closed": stream.closed, "at": i,
+                         "was_open": sess["open0"], "closed": is_closed(stream), "at": i,
                          "propagated": None if plain else ex is not None})
+            prev, prev_sess = handle, sess
             handle = None
             last_ex = None
+        elif k == "C2":
+            info["prev_ps"] = ps_tok(prev)
+            info["prev"] = [prev_sess["mode"], prev_sess["closefd"]]
+            info["res_unmodelled"] = prev_sess["mode"] == "w"      # a writer rewrites its header once more: what that returns is not modelled
+            try:
+                if ev[1] == "x":
+                    with prev:
+                        pass
+                else:
+                    prev.close()
+            except CATCH as e:  # noqa
+                ex = e
+            gone.append({"how": "reclose", "mode": prev_sess["mode"], "closefd": prev_sess["closefd"], "was_open": prev_sess["open0"],
+                         "closed": is_closed(stream), "at": i})
+        elif k == "Wc":
+            info["prev"] = [prev_sess["mode"], prev_sess["closefd"]]
+            info["res_unmodelled"] = prev_sess["mode"] == "w"
+            try:
+                pts = laspy.PackedPointRecord.zeros(2, prev.header.point_format)
+                prev.write_points(pts) if prev_sess["mode"] == "w" else prev.append_points(pts)
+            except CATCH as e:  # noqa
+                ex = e
+            gone.append({"how": "use-after-close", "mode": prev_sess["mode"], "closefd": prev_sess["closefd"], "was_open": prev_sess["open0"],
+                         "closed": is_closed(stream), "at": i, "raised": type(ex).__name__ if ex is not None else None})
         elif k == "C":
             try:
                 handle.close()
             except CATCH as e:  # noqa
                 ex = e
             gone.append({"how": "close", "mode": sess["mode"], "closefd": sess["closefd"], "was_open": sess["open0"],
-                         "closed": stream.closed, "at": i})
+                         "closed": is_closed(stream), "at": i})
+            prev, prev_sess = handle, sess
             handle = None
             last_ex = None
+        elif k == "G":
+            # nothing of the session is kept: the handle, the records it handed out, the exception of its last operation (whose
+            # traceback holds the frames of the handle's methods)
+            had_ps = ps_tok(handle)
+            handle = None
+            last_ex = rec = las = None
+            try:
+                gc.collect()
+            except CATCH as e:  # noqa
+                ex = e
+            gone.append({"how": "dropped", "mode": sess["mode"], "closefd": sess["closefd"], "was_open": sess["open0"],
+                         "closed": is_closed(stream), "at": i, "ps": had_ps})
         elif k == "D":
             las, kw = las_data(spec, ev[1], ev[2])
             try:
@@ -846,7 +960,7 @@ def run_impl(scen):
                 ex = e
             pos_valid = False
             gone.append({"how": "lasdata-write", "mode": "w", "outcome": ev[1], "closefd": False, "was_open": was_open,
-                         "closed": stream.closed, "at": i})
+                         "closed": is_closed(stream), "at": i})
         elif k == "L":
             cf, outcome = ev[1], ev[2]
             if outcome in ["ok"] + LATE and was_open:
@@ -861,7 +975,7 @@ def run_impl(scen):
                 ex = e
                 pos_valid = False
             gone.append({"how": "read-las", "mode": "r", "outcome": outcome, "closefd": cf, "was_open": was_open,
-                         "closed": stream.closed, "at": i})
+                         "closed": is_closed(stream), "at": i})
         else:
             raise ValueError(ev)
         if proxy is not None:
@@ -876,24 +990,24 @@ def run_impl(scen):
             for g in gone[ngone0:]:
                 g["fault_phase"] = fault_phase
         fis.append(fi)
-        st = {"res": res_class(ex), "exc": type(ex).__name__ if ex is not None else None, "closed": stream.closed,
+        st = {"res": res_class(ex), "exc": type(ex).__name__ if ex is not None else None, "closed": is_closed(stream),
               "pos": pos_of(stream, kind) if pos_valid else None, "ps": ps_tok(handle) if handle is not None else None,
               "handle": handle is not None}
         st.update(info)
         steps.append(st)
     # the caller's stream must not be owned by anything laspy created: drop every reference, collect, look again
-    after = {"open_before_gc": not stream.closed}
+    after = {"open_before_gc": not is_closed(stream)}
     if proxy is not None:
         if proxy._k == 0:
             after["oplog"] = list(proxy._oplog)
         elif proxy._k <= len(proxy._oplog):
             after["hit"] = proxy._oplog[proxy._k - 1]      # (event index, operation) of the one that failed (first)
         after["faults_raised"] = proxy._raised
-    handle = None
+    handle = prev = None
     las = None
     ex = last_ex = rec = None
     gc.collect()
-    after["open_after_gc"] = not stream.closed
+    after["open_after_gc"] = not is_closed(stream)
     if after["open_before_gc"] and after["open_after_gc"] and seekable_kind(kind):
         try:
             stream.seek(0)
@@ -963,18 +1077,31 @@ def matrix(ctx):
                 # ---- read sessions: bodies x ends x preloading
                 for re in (True, False):
                     for bi, body in enumerate(READ_BODIES):
-                        for ei, end in enumerate(ENDS + [["Sbad"]]):
-                            if (bi + ei) % 2 and kind in ("file", "rawfile") and not ctx.thorough():
-                                continue     # files on disk: half of the body x end grid in the quick tier
+                        for ei, end in enumerate(ENDS + [["Sbad"], ["G"]]):
+                            if (bi + ei) % 2 and kind in ("file", "rawfile") + NC_KINDS and not ctx.thorough() and not (end == ["G"] and bi in (1, 7)):
+                                continue     # files on disk, doubles without `closed`: half of the body x end grid in the quick tier
                             if body and body[0][0] == "S" and spec[2] == 0:
                                 continue     # seeking in an empty file is refused before anything happens: same as no body
                             scen.append({"src": kind, "file": list(spec), "writable": False,
                                          "events": [["O", "r", cf, re, "ok", 0]] + body + [end]})
+                # ---- a second close of the same object; points given to a closed writer / appender
+                for bi, body in enumerate(([], [["P", 2]], [["A"]])):
+                    for ei, end in enumerate((["X"], ["C"], ["B", "o"])):
+                        if (bi + ei) % 2 and not ctx.thorough():
+                            continue
+                        scen.append({"src": kind, "file": list(spec), "writable": False,
+                                     "events": [["O", "r", cf, True, "ok", 0]] + body + [end, ["C2", "cx"[(bi + ei) % 2]], ["C2", "c"]]})
+                if seekable_kind(kind):
+                    for mode in "wa":
+                        for ei, end in enumerate((["X"], ["C"], ["B", "l"], ["Wbad"])):
+                            scen.append({"src": kind, "file": list(spec),
+                                         "events": [["O", mode, cf, True, "ok", 0], ["W"], end, ["C2", "cx"[ei % 2]], ["Wc"], ["C2", "c"]]})
+                        scen.append({"src": kind, "file": list(spec), "events": [["O", mode, cf, True, "ok", 0], ["C"], ["Wc"], ["C2", "x"]]})
                 # ---- write / append sessions
                 if seekable_kind(kind):
                     for mode in "wa":
                         for body in WRITE_BODIES:
-                            for end in ENDS + [["Wbad"]]:
+                            for end in ENDS + [["Wbad"], ["G"]]:
                                 scen.append({"src": kind, "file": list(spec), "events": [["O", mode, cf, True, "ok", 0]] + body + [end]})
                 # ---- laspy.read
                 for outcome in OUTCOMES:
@@ -987,9 +1114,9 @@ def matrix(ctx):
                         continue
                     for re in (True, False):
                         for body in ([], [["A"]], [["P", -1]], [["P", 1], ["A"]], [["Q"], ["A"]]):
-                            for end in (["X"], ["C"], ["B", "o"]):
+                            for end in (["X"], ["C"], ["B", "o"], ["G"]):
                                 v += 1
-                                if v % 2 and kind in ("file", "rawfile") and not ctx.thorough():
+                                if v % 2 and kind in ("file", "rawfile") + NC_KINDS and not ctx.thorough():
                                     continue
                                 scen.append({"src": kind, "file": list(spec), "writable": False,
                                              "events": [["O", "r", cf, re, outcome, v]] + body + [end]})
@@ -1022,7 +1149,7 @@ def matrix(ctx):
 LAZ_FILES = [("1.2", 3, 5, 0, "laz"), ("1.4", 6, 3, 1, "laz"), ("1.2", 1, 0, 0, "laz"), ("1.4", 7, 0, 1, "laz")]
 LAZ_BODIES = [[], [["P", 2]], [["A"]], [["Q"]], [["S", 1, 0]], [["P", 1], ["A"]], [["P", -1], ["Q"], ["P", 1]], [["I", 2]], [["P", 0]],
               [["S", 0, 2], ["A"]]]
-LAZ_ENDS = ENDS + [["Bf"], ["Sbad"]]     # Bf: what the last operation raised leaves the with block
+LAZ_ENDS = ENDS + [["Bf"], ["Sbad"], ["G"]]     # Bf: what the last operation raised leaves the with block; G: the handle is only dropped
 
 
 def laz_matrix(ctx):
@@ -1089,7 +1216,8 @@ def big_matrix(ctx):
     scen = []
     specs = big_specs(ctx)
     for si, spec in enumerate(specs):
-        kinds = KINDS if ctx.thorough() else ["bytesio", "double_ns", "double_ro", ["file", "rawfile", "double"][(si + ctx.seed) % 3]]
+        kinds = KINDS if ctx.thorough() else ["bytesio", "double_ns", "double_ro", ["file", "rawfile", "double"][(si + ctx.seed) % 3],
+                                              NC_KINDS[(si + ctx.seed) % 3]]
         for kind in kinds:
             for cf in (True, False):
                 for re in ((True, False) if spec[3] else (True,)):
@@ -1097,6 +1225,7 @@ def big_matrix(ctx):
                     scen.append(dict(base, events=[["O", "r", cf, re, "ok", 0], ["P", 2], ["A"], ["X"]]))
                     scen.append(dict(base, events=[["O", "r", cf, re, "ok", 0], ["C"]]))
                     scen.append(dict(base, events=[["O", "r", cf, re, "ok", 0], ["Q"], ["B", "o"]]))
+                    scen.append(dict(base, events=[["O", "r", cf, re, "ok", 0], ["P", 2], ["G"]]))
                     if spec[3] == 0 or not seekable_kind(kind):
                         scen.append(dict(base, pre=64, events=[["O", "r", cf, re, "ok", 0], ["P", -1], ["X"]]))
                 scen.append({"src": kind, "file": list(spec), "writable": False, "events": [["L", cf, "ok", 0]]})
@@ -1121,7 +1250,8 @@ def expect_open_ok(mode, outcome, kind, re=True):
 
 
 def random_history(rng):
-    kind = rng.choice(["bytesio", "double", "file", "rawfile", "bytesio", "double", "double_ns", "double_ro"])
+    kind = rng.choice(["bytesio", "double", "file", "rawfile", "bytesio", "double", "double_ns", "double_ro", "nc_double", "nc_double",
+                       "nc_double_ns", "nc_ro"])
     spec = rng.choice(FILES)
     env = None
     u0 = rng.random()
@@ -1193,14 +1323,23 @@ def random_history(rng):
             else:
                 events.append(["W"])
         u = rng.random()
-        if u < 0.35:
+        if u < 0.3:
             events.append(["X"])
-        elif u < 0.6:
+        elif u < 0.5:
             events.append(["C"])
-        elif u < 0.8:
+        elif u < 0.66:
             events.append(["B", rng.choice("lo")])
+        elif u < 0.82:
+            events.append(["G"])           # the handle is only dropped: the stream stays as it is, whatever closefd
+            continue
         else:
             events.append(["Sbad"] if mode == "r" else ["Wbad"])
+        if rng.random() < 0.25:         # the caller closes the same object once more / goes on using it
+            if mode != "r" and rng.random() < 0.5:
+                events.append(["Wc"])
+            events.append(["C2", rng.choice("cx")])
+            if rng.random() < 0.3:
+                events.append(["Wc"] if mode != "r" else ["C2", "c"])
         closed = cf
     out = {"src": kind, "file": list(spec), "events": events}
     if pre:
@@ -1257,12 +1396,13 @@ def register(ctx, sc, steps):
 def correspond(ctx):
     ctx.extra["rule"] = (
         "complete matrix: source kinds {BytesIO, buffered file, unbuffered raw file, stream double, non-seekable stream double, source "
-        "that offers only read() (no seekable/seek/tell attribute)} x files "
+        "that offers only read() (no seekable/seek/tell attribute), and the three doubles again without a `closed` attribute (judged by "
+        "their close counter)} x files "
         "{1.2 empty, 1.2 with points, 1.4 empty with an EVLR, 1.4 with points and EVLRs} x closefd x [every mode x outcome {ok, empty, bad "
         "signature, truncated header, undecodable VLR / unencodable header (non-Laspy exception), incompatible header}; read sessions: "
         "EVLR preloading on/off x bodies {none, read_points, read, .point_source, seek, combinations} x {with-exit, close(), user "
-        "RuntimeError, user LaspyException, IndexError from seek}; write/append sessions x {.., LaspyException from write_points with "
-        "another format}; laspy.read x outcomes; LasData.write x outcomes]; contents that fail after a successful open {point area cut "
+        "RuntimeError, user LaspyException, IndexError from seek, handle DROPPED without close + gc.collect()}; write/append sessions x {.., "
+        "LaspyException from write_points with another format, handle dropped}; laspy.read x outcomes; LasData.write x outcomes]; contents that fail after a successful open {point area cut "
         "inside a record, undecodable EVLR user id} x preloading x bodies x ends and through laspy.read; LAS contents that start at byte "
         "1/64/300 of the stream (read sessions, laspy.read x every outcome); plus random histories of up to 4 sessions on one stream "
         "(the caller refills and rewinds it in between; attempts on a stream laspy already closed; 12% on a LAZ-flagged file, 4% on a file "
@@ -1314,7 +1454,7 @@ def correspond(ctx):
         bad = None
         for i, (ms, st) in enumerate(zip(msteps, steps)):
             ev = sc["events"][i]
-            if ms["res"] != st["res"]:
+            if ms["res"] != st["res"] and not st.get("res_unmodelled"):
                 bad = (i, "result", ms["res"], f"{st['res']} ({st['exc']})")
             elif ms["closed"] != st["closed"]:
                 bad = (i, "closed", ms["closed"], st["closed"])
@@ -1328,8 +1468,9 @@ def correspond(ctx):
                 break
         if bad is None and not mok:
             bad = (len(steps) - 1, "model log violates obs_okb", mlog, None)
-        if bad is None and len(mlog) != len(gone):
-            bad = (len(steps) - 1, "number of let-go moments", len(mlog), len(gone))
+        let_go = [g for g in gone if g["how"] not in ("dropped", "reclose", "use-after-close")]      # (not moments at which laspy lets go: no log entry)
+        if bad is None and len(mlog) != len(let_go):
+            bad = (len(steps) - 1, "number of let-go moments", len(mlog), len(let_go))
         if bad is not None:
             i, what, m, im = bad
             dis.append({"kind": f"{what} after {sc['events'][i][0]}" + (" (stream fault injected)" if sc.get("fault") and sc["fault"][0] else ""),
@@ -1362,7 +1503,26 @@ def oracle(sc):
             continue
         if g.get("precondition"):
             continue          # mode w on a non-seekable destination: refused before laspy takes the stream (see ASSUMPTIONS)
+        if g["how"] == "dropped":
+            # the handle was not closed and no with statement was left: laspy was not told to let go. A stream handed over with
+            # closefd=False is never closed by laspy - not by a finalizer either; (closefd=True: the property does not say when)
+            if g["closed"] and not g["closefd"]:
+                out.append((f"handle dropped without close() mode={g['mode']} closefd=False -> closed=True",
+                            f"event #{g['at']}: the {'reader' if g['mode'] == 'r' else 'writer' if g['mode'] == 'w' else 'appender'} "
+                            f"(point source: {({'n': 'not created', 'r': 'UncompressedPointReader', 'e': 'EmptyPointReader'}).get(g.get('ps'), g.get('ps'))}) "
+                            f"became unreachable, gc.collect(): the caller's stream is closed"))
+            continue
+        if g["how"] == "use-after-close":
+            if g["closed"] and not g["closefd"]:
+                out.append((f"points given to a closed {'writer' if g['mode'] == 'w' else 'appender'} closefd=False -> closed=True",
+                            f"event #{g['at']}: the call raised {g.get('raised')}; the caller's stream is closed"))
+            continue
         want = g["closefd"]
+        if g["how"] == "reclose" and g["closed"] != want:
+            out.append((f"second close mode={g['mode']} closefd={g['closefd']} -> closed={g['closed']}",
+                        f"event #{g['at']}: close() / with-exit once more on the object that was closed before: the stream is "
+                        f"{'closed' if g['closed'] else 'open'}, expected closed={want}"))
+            continue
         if g["closed"] != want:
             what = g["how"] + (":" + g["outcome"] if "outcome" in g and g["how"] != "lasdata-write" else "")
             if g.get("fault_phase"):
@@ -1420,18 +1580,24 @@ def fault_bases(ctx):
                 for re in (True, False):
                     if spec[3] == 0 and not re:
                         continue           # preloading changes nothing without EVLRs
-                    for body in R_BODIES:
-                        for end in (["X"], ["C"]):
+                    for bi, body in enumerate(R_BODIES):
+                        for end in (["X"], ["C"]) + ((["G"],) if bi in (0, 3, 4) else ()):
                             sc = {"src": kind, "file": list(spec), "writable": False, "events": [["O", "r", cf, re, "ok", 0]] + body + [end]}
                             (grid if main else rest).append(sc)
                 if seekable_kind(kind):
                     for mode in "wa":
-                        for body in W_BODIES:
-                            for end in (["X"], ["C"]):
+                        for bi, body in enumerate(W_BODIES):
+                            for end in (["X"], ["C"]) + ((["G"],) if bi == 1 else ()):
                                 sc = {"src": kind, "file": list(spec), "events": [["O", mode, cf, True, "ok", 0]] + body + [end]}
                                 (grid if main else rest).append(sc)
                 sc = {"src": kind, "file": list(spec), "writable": False, "events": [["L", cf, "ok", 0]]}
                 (grid if main else rest).append(sc)
+                # a second close after the first (stream faults under either)
+                rest.append({"src": kind, "file": list(spec), "writable": False, "events": [["O", "r", cf, True, "ok", 0], ["P", 2], ["X"], ["C2", "c"]]})
+                if seekable_kind(kind):
+                    for mode in "wa":
+                        (grid if main and spec == R_FILES[0] else rest).append(
+                            {"src": kind, "file": list(spec), "events": [["O", mode, cf, True, "ok", 0], ["W"], ["C"], ["Wc"], ["C2", "c"]]})
                 if seekable_kind(kind) and not cf:
                     # a second, healthy session on the stream laspy was told to leave open
                     rest.append({"src": kind, "file": list(spec), "events": [["O", "r", False, True, "ok", 0], ["P", 1], ["X"], ["N"],
@@ -1477,18 +1643,20 @@ ENTRIES = ["laspy.open r", "laspy.open w", "laspy.open a", "LasReader", "LasWrit
 
 
 def entry_cases():
-    return [{"entry": e, "closefd": cf, "end": end} for e in ENTRIES for cf in ("default", True, False)
-            for end in (("exit", "close", "body-raises", "dropped") if e != "laspy.read" else ("exit",))]
+    return [{"entry": e, "closefd": cf, "end": end, "src": src} for src in ("bytesio", "nc_double") for e in ENTRIES for cf in ("default", True, False)
+            for end in (("exit", "close", "body-raises", "dropped", "used-dropped", "used-exit") if e != "laspy.read" else ("exit",))]
 
 
 def run_entry(case):
-    """the stream is handed to the entry point (closefd left out, True or False), the handle is used as a context manager / closed /
-    left by an exception / only dropped; -> list of (kind, observed)"""
+    """the stream (a BytesIO, or a double that has no `closed` attribute) is handed to the entry point (closefd left out, True or
+    False), the handle is used as a context manager / closed / left by an exception / only dropped - unused, or after points were
+    read from / written through it; -> list of (kind, observed)"""
     import laspy
     raw = base_file(("1.2", 1, 3, 0))
     e, cf, end = case["entry"], case["closefd"], case["end"]
     kw = {} if cf == "default" else {"closefd": cf}
-    s = io.BytesIO(raw if e not in ("laspy.open w", "LasWriter") else b"")
+    s = make_stream(case.get("src", "bytesio"), raw if e not in ("laspy.open w", "LasWriter") else b"", True)
+    judged = True
     want = cf is not False          # documented default: closefd=True
     ex = None
     try:
@@ -1511,7 +1679,15 @@ def run_entry(case):
             from laspy.lasappender import LasAppender
             h = LasAppender(s, **kw)
         if h is not None:
-            if end == "exit":
+            if end.startswith("used"):
+                # the lazily created point source / the point writer exists
+                if isinstance(h, laspy.LasReader):
+                    h.read_points(1)
+                else:
+                    pts = laspy.PackedPointRecord.zeros(1, h.header.point_format)
+                    h.write_points(pts) if isinstance(h, laspy.LasWriter) else h.append_points(pts)
+                    del pts
+            if end in ("exit", "used-exit"):
                 with h:
                     pass
             elif end == "close":
@@ -1524,15 +1700,17 @@ def run_entry(case):
                     pass
             else:
                 want = False           # a handle that is only dropped has not been told to let go of anything
+                judged = end == "dropped" or cf is False     # (used, then dropped, with closefd true: the property does not say when)
                 h = None
                 gc.collect()
     except Exception as x:  # noqa
         ex = x
     out = []
+    src = "" if case.get("src", "bytesio") == "bytesio" else " (source without a `closed` attribute)"
     if ex is not None:
-        out.append((f"entry point {e} closefd={cf} fails on a well-formed stream", f"{type(ex).__name__}: {ex}"))
-    elif s.closed != want:
-        out.append((f"entry point {e} closefd={cf} {end} -> closed={s.closed}", f"stream.closed is {s.closed}, expected {want}"))
+        out.append((f"entry point {e} closefd={cf} fails on a well-formed stream{src}", f"{type(ex).__name__}: {ex}"))
+    elif judged and is_closed(s) != want:
+        out.append((f"entry point {e} closefd={cf} {end} -> closed={is_closed(s)}{src}", f"the stream is {'closed' if is_closed(s) else 'open'}, expected closed={want}"))
     return out
 
 
@@ -1565,7 +1743,8 @@ def search(ctx, seeds):
         "then normal exit or close()) and by the exception leaving the with block; judged by the property's iff at every moment "
         "laspy lets go of the stream. Entry points (oracle only): laspy.open r/w/a (keyword and positional closefd), the LasReader / "
         "LasWriter / LasAppender constructors, laspy.read x closefd {left out (documented default True), True, False} x {with-exit, "
-        "close(), with-body raises, handle only dropped}")
+        "close(), with-body raises, handle only dropped, points read / written then the handle dropped or the with block left} x {BytesIO, "
+        "a double without a `closed` attribute}")
     gc.collect()
     gc.freeze()
 
@@ -1627,7 +1806,7 @@ def shrink(sc, kind):
         changed = False
         evs = cur["events"]
         for i in range(len(evs)):
-            if evs[i][0] in ("O", "X", "C", "B", "Bf", "Wbad", "Sbad", "N"):
+            if evs[i][0] in ("O", "X", "C", "G", "B", "Bf", "Wbad", "Sbad", "N"):
                 continue
             cand = dict(cur, events=evs[:i] + evs[i + 1:])
             try:
